@@ -252,6 +252,27 @@ def run_case(spec):
                     if after_model[0] == "value" and seen != [after_model[1]]:
                         vs.append(V("intact", name + "-unfired", "match-then-fire: callback saw %r, expected %r" % (seen, after_model[1])))
                     d.addErrback(lambda f: None)
+        # --- a passive probe leaves the Deferred as it was: has_no_result() first, then the matcher for its state
+        d = make_deferred(ds, [])
+        first = has_no_result().match(d) is None
+        if first != (kind == "none"):
+            vs.append(V("classify", "has_no_result-on-%s" % kind, "has_no_result() verdict %r on state %r" % (first, state)))
+        if kind == "failure":
+            if failed(tm.Always()).match(d) is not None:
+                vs.append(V("intact", "has_no_result-consumed-failure", "after has_no_result() probed a failed Deferred, failed(Always()) no longer matches it"))
+        elif kind == "value":
+            again = succeeded(tm.Always()).match(d) is None and succeeded(tm.Always()).match(d) is None
+            seen = []
+            d.addCallback(seen.append)
+            if not again or seen != [state[1]]:
+                vs.append(V("intact", "probe-then-succeeded", "after has_no_result() and succeeded() twice: matches=%r, later callback saw %r, original %r" % (again, seen, state[1])))
+        elif ds["state"] == "unfired":
+            seen, errs = [], []
+            d.addCallbacks(seen.append, errs.append)
+            if seen or errs or d.called:
+                vs.append(V("passive", "probe-fired", "probing an unfired Deferred fired it"))
+        d.addErrback(lambda f: None)
+        del d
         # --- inspected failures are marked handled
         if kind == "failure":
             probes = (("succeeded", lambda: succeeded(tm.Always())), ("failed", lambda: failed(tm.Never())), ("failed-matching", lambda: failed(tm.Always())))
